@@ -39,6 +39,7 @@ ASSUMPTIONS = [
 MIN_NONTRIVIAL = {'quick': 3000, 'thorough': 60000}
 REQUIRED_MONITORS = ['roundtrip', 'unknown-name', 'wait_to_parse',
                      'channel:bulk', 'channel:layout-over-copy_all',
+                     'channel:A=C-reparsed',
                      'unknown-name:config-attribute', 'channel:A=B', 'channel:A=C',
                      'channel:split', 'channel:cross',
                      'channel:K', 'channel:M', 'tract:A=B', 'tract:A=C',
@@ -218,6 +219,19 @@ def run_plss(st, desc, ctx, log, pytrs, label):
                 ctx.violation('channel-mismatch:config-vs-keyword', case,
                               f"{st} on {desc!r}: {why}",
                               dedup='|'.join(sorted(st)))
+            # C2: the keywords given to an object that was already parsed
+            # (at creation, with the rest of the settings)
+            c2 = pytrs.PLSSDesc(desc, config=CF.to_text(rest) or None)
+            log.reset()
+            r2 = c2.parse(**kw)
+            C2 = outcome(r2, c2, log, master)
+            ctx.hit('channel:A=C-reparsed')
+            why = diff(A, C2)
+            if why:
+                ctx.violation('channel-mismatch:config-vs-keyword', case,
+                              f"{st} on {desc!r} (keywords to an object "
+                              f"already parsed at creation): {why}",
+                              dedup='reparsed|' + '|'.join(sorted(st)))
             # K: keyword over a contrary config string
             other = {}
             for k, v in st.items():
